@@ -84,7 +84,7 @@ def runCache (c : CaseIn) (L : Nat) (cfgs : List BindCfg) (cap : Option Nat) :
     Option String × List (String × Bool × Nat) × Nat × Bool :=
   let traces := cfgs.map (·.accs)
   let s := cacheRun L c.ls cap traces
-  (s.failed, trafficTable c cfgs (getAt s.reads) (getAt s.writes), s.over, s.wrongPop)
+  (s.failed, trafficTable c cfgs (getAt s.reads) (getAt s.writes), s.over, false)
 
 def specCache (c : CaseIn) (L : Nat) (cfgs : List BindCfg) (cap : Option Nat) :
     List (String × Bool × Nat) :=
@@ -136,16 +136,15 @@ def handle (j : Json) (cache : Bool) : Except String Verdict := do
     if tie then tags := tags ++ ["stamp-tie"]
     -- hypotheses of `cache_eq_reference_partial`, evaluated on the code's view of the accesses
     let schedS := schedule L accsS
-    let hypOk := schedNextOkB schedS && schedOrdB schedS && schedS.all (fun x => !x.2.staging)
+    let hypOk := schedNextOkB schedS && schedOrdB schedS
     if cache && hypOk then tags := tags ++ ["cache-thm-applies"]
     if !(cfgs.zip accsT).all (fun (b, t) => winContigB b.evictEnd t) then tags := tags ++ ["window-not-contiguous"]
     if !accsT.all (fun t => stampsSortedB (t.map (·.stamp))) then tags := tags ++ ["unsorted-stamps"]
     let mut prevReads : Option Nat := none
     let mut inWorld := true         -- model(code's shapes) = reference(code's shapes) for every capacity
-    let mut wrongPop := false
     for (cap, run) in caps.zip runs do
       -- the model, run with the shapes the code computes
-      let (merr, mtab, mover, mwp) : Option String × List (String × Bool × Nat) × Nat × Bool :=
+      let (merr, mtab, mover, _) : Option String × List (String × Bool × Nat) × Nat × Bool :=
         if cache then runCache c L cfgs cap
         else
           let (t, o) := runBuffet c L cfgs cap
@@ -153,7 +152,6 @@ def handle (j : Json) (cache : Bool) : Except String Verdict := do
       -- the specification evaluated on the same (possibly wrong) shapes, and on the true ones
       let rS := if cache then specCache c L cfgs cap else specBuffet c cfgs
       let stab := if cache then specCache c L cfgs cap else specBuffet c cfgs
-      if mwp then wrongPop := true
       if merr.isSome || !sameTable mtab rS then inWorld := false
       models := models ++ [Json.mkObj [("cap", match cap with | none => Json.null | some x => jNat x),
         ("err", match merr with | none => Json.null | some e => Json.str e),
@@ -188,9 +186,8 @@ def handle (j : Json) (cache : Bool) : Except String Verdict := do
       if cap == some 0 then tags := tags ++ ["cap0"]
       if cap.isNone then tags := tags ++ ["cap-inf"]
     -- attribution of a deviation to the defects the model mirrors
-    if !inWorld && wrongPop then tags := tags ++ ["explained:pinned-pop-other-binding"]
-    if !inWorld && !wrongPop && tie then tags := tags ++ ["explained:stamp-tie"]
-    if !inWorld && !wrongPop && !tie then tags := tags ++ ["MODEL-NOT-SPEC"]
+    if !inWorld && tie then tags := tags ++ ["explained:stamp-tie"]
+    if !inWorld && !tie then tags := tags ++ ["MODEL-NOT-SPEC"]
     if cache && hypOk && !inWorld then tags := tags ++ ["THEOREM-CONTRADICTED"]
     -- line-granularity: the jittered rerun (first capacity) must charge the same
     match jit, runs.head? with
